@@ -84,9 +84,14 @@ impl PatchHeader {
         }
     }
 
-    /// The `Reviewed-By` field.
+    /// The `Reviewed-by` field.
     pub fn reviewed_by(&self) -> Vec<String> {
-        self.0.get_all("Reviewed-By").collect()
+        // DEP-3 spells the field "Reviewed-by"; accept the capitalised spelling as well
+        self.0
+            .items()
+            .filter(|(k, _)| k.eq_ignore_ascii_case("Reviewed-by"))
+            .map(|(_, v)| v)
+            .collect()
     }
 
     /// Get the last update date of the patch.
